@@ -152,3 +152,52 @@ func dedupRaces(logs []string) (total int, uniq []raceReport) {
 	sort.Slice(uniq, func(i, j int) bool { return uniq[i].Key < uniq[j].Key })
 	return
 }
+
+var fuzzExecs = regexp.MustCompile(`execs: (\d+)`)
+
+// runNativeFuzz runs one Go native fuzz target of /verif/fuzz for a fixed number of executions
+// (coverage-guided, seed corpus in the test file) and reports a crasher as a violation.
+func runNativeFuzz(r interface {
+	Count(string, int64)
+	Violation(string, string, interface{})
+	Inconclusive(string)
+}, target string, execs int) {
+	root := os.Getenv("VERIF_ROOT")
+	if root == "" {
+		root, _ = os.Getwd()
+	}
+	args := []string{"test"}
+	if mf := os.Getenv("VERIF_MODFLAG"); mf != "" {
+		args = append(args, mf)
+	}
+	args = append(args, "-tags", "verif", "-ldflags=-checklinkname=0", "-run=^$", "-fuzz=^"+target+"$", fmt.Sprintf("-fuzztime=%dx", execs), "./fuzz/")
+	cmd := exec.Command("go", args...)
+	cmd.Dir = root
+	var out bytes.Buffer
+	cmd.Stdout, cmd.Stderr = &out, &out
+	err := cmd.Run()
+	text := out.String()
+	n := int64(0)
+	for _, m := range fuzzExecs.FindAllStringSubmatch(text, -1) {
+		var v int64
+		fmt.Sscan(m[1], &v)
+		if v > n {
+			n = v
+		}
+	}
+	r.Count("native_fuzz_execs_"+target, n)
+	if err == nil {
+		return
+	}
+	dir := filepath.Join(root, "fuzz", "testdata", "fuzz", target)
+	files, _ := filepath.Glob(filepath.Join(dir, "*"))
+	if len(files) == 0 {
+		r.Inconclusive("native fuzzing of " + target + " failed without a crasher: " + lastLines(text, 8))
+		return
+	}
+	for _, f := range files {
+		b, _ := os.ReadFile(f)
+		r.Violation("", "native fuzzing ("+target+") found a failing input:\n"+lastLines(text, 12), map[string]interface{}{"fuzz_target": target, "corpus_entry": string(b)})
+		os.Remove(f)
+	}
+}
